@@ -5,6 +5,8 @@ import InfluxQL.Lemmas.RegexGap
 import InfluxQL.Model.ParserCore
 import InfluxQL.Lemmas.RenderQuery
 import InfluxQL.Lemmas.RenderPrinted
+import InfluxQL.Lemmas.PrintedFamilies
+import InfluxQL.Props.C04
 /-!
 # C16 — statement separation, whitespace and comments do not change meaning
 
@@ -689,6 +691,120 @@ example : printStatements [.showDatabases, .dropDatabase "a b".toList, .dropShar
       · show Expressible "a b".toList; decide
       · show ((7 : Nat) : Int) ≤ maxUInt64; decide)
     _ [] [] (by decide +kernel)
+
+/-! ## Printed queries that contain statements with expressions
+
+Inside `Statements.String()` a statement is followed by `;⏎`: the `;` stands directly behind the last
+token, for DELETE / SHOW … / SELECT usually behind an expression. `;` directly after an expression is
+outside the continuations of C02 / C03 (`RT.SepU`); Lemmas/ExprSemi.lean proves the operand and
+`ParseExpr` steps for it, Lemmas/StmtExprSemi.lean re-states the clause lemmas and family theorems of C02
+for it, Lemmas/PrintedQuery.lean runs the loop of `ParseQuery` over statements of either kind
+(`PrintedQuery.StmtSpec`), Lemmas/PrintedFamilies.lean has the instances. -/
+
+open PrintedQuery in
+/-- **`;` directly after a printed expression.** From a state standing before `e.String()` followed by
+`;` (possibly after one blank), `ParseExpr` returns `e` and stands before the `;` — or the fuel given was
+too small. Partial: `e` in C03's class `Printable` (`RT.rtOK false`: binary operators over references,
+string / integer / boolean literals, parentheses, regex operands; no calls, casts, number / duration
+literals, wildcards — the class the family theorems of C02 use). -/
+theorem parseExpr_before_semicolon_partial (F : Nat) (s : PState) (e : Expr) (t : Str) (he : RT.rtOK false e = true)
+    (hat : RT.AtW s (e.print ++ ';' :: t)) :
+    wp (parseExpr F) s (fun e' s' => e' = e ∧ RT.Stand s' (';' :: t) ∧ RT.Same s s') RT.IsFuel :=
+  C02.Semi.RT.parseExpr_semi F s e t he hat
+
+open PrintedQuery in
+/-- Obligation on the regenerated tables (keyword table, dispatch tree of parse_tree.go): the keyword
+paths of the expression-bearing families — DELETE, DROP SERIES, SHOW SERIES, SHOW TAG KEYS, SHOW FIELD
+KEYS, SHOW MEASUREMENTS, SELECT — consist of keywords, select their handlers from the root within the
+rounds `ParseStatement` grants, and begin with a token that is neither EOF nor `;`. -/
+theorem gen_exprPaths : ∀ p ∈ exprPaths,
+    (∀ t ∈ p.1, t.isKw = true) ∧ C01.dispatchPath 0 p.1 = some p.2 ∧ p.1.length ≤ Gen.dispatch.length + 1 ∧
+      (match p.1 with
+       | [] => false
+       | t :: _ => t != .EOF && t != .SEMICOLON) = true := PrintedQuery.gen_exprPaths
+
+open PrintedQuery RenderPrinted in
+/-- **C16 (a) for printed queries with expression-bearing statements.** `qs` is any list of printed
+statements of a proved family of either kind: `QStmt.plain p` — zero-argument SHOW, DROP DATABASE /
+MEASUREMENT / USER, SHOW GRANTS FOR, DROP RETENTION POLICY / CONTINUOUS QUERY / SHARD
+(`parseQuery_printed`) — or `QStmt.expr x` with `x.OK`: `deletePS`, `dropSeriesPS`, `showSeriesPS`,
+`showTagKeysPS`, `showFieldKeysPS`, `showMeasurementsPS`, `selectPS`, `selectIntoPS` (one `…_ok` lemma
+each, from the decidable classes `DeleteLikeOK`, `ShowOK`, `C02.SimpleSelect`, `C02.IntoSelect`). A raw
+text whose delivered form is `Statements.String()` of them — `stmt₁;⏎stmt₂;⏎…`, each `;` directly behind
+the last token of its statement — parses (`ParseQuery`, with the fuel `parseQueryText` gives it) to
+exactly these statements, in order: no statement swallows the next one, none is cut short.
+
+Partial: the classes are those of the C02 family theorems — excluded (all producible by the parser) are
+regex / sub-query sources, ORDER BY, GROUP BY, fill(), TZ(), WITH KEY / WITH MEASUREMENT, and conditions
+or fields outside `Printable` (calls, number / duration literals, wildcards, the negated-operand trees of
+the open finding `negated-operand-printed-without-grouping`), and empty names (finding
+`empty-identifier-not-printed`): for those the single-statement round trip is not proved either. The "out
+of fuel" alternative of the family theorems is discharged by C04 (`parseQueryText_total`). -/
+theorem parseQuery_printed_exprs_partial (qs : List QStmt) (hok : ∀ q ∈ qs, q.OK) (text : Str)
+    (params : List (Str × BoundValue)) (tbl : List (Char × Char))
+    (hfold : foldCR text = printStatements (qs.map QStmt.stmt)) :
+    parseQueryText text params tbl = .ok (qs.map QStmt.stmt) :=
+  parseQueryText_printed_qstmts C04.gen_dispatch_depth qs hok text params tbl hfold
+
+open PrintedQuery RenderPrinted in
+/-- **`ParseQuery(Statements.String())` = the statements**, for the printed query itself. The hypothesis
+"no carriage return in the printed text" is decidable and only says that the reader delivers the text
+unchanged (names and strings the parser produces never contain CR: the reader folds CR and CRLF to LF
+before the scanner sees them). -/
+theorem parseQuery_printed_exprs_text_partial (qs : List QStmt) (hok : ∀ q ∈ qs, q.OK)
+    (hcr : ∀ c ∈ printStatements (qs.map QStmt.stmt), c ≠ '\r') (params : List (Str × BoundValue))
+    (tbl : List (Char × Char)) :
+    parseQueryText (printStatements (qs.map QStmt.stmt)) params tbl = .ok (qs.map QStmt.stmt) :=
+  parseQuery_printed_exprs_partial qs hok _ params tbl (foldCR_of_noCR _ hcr)
+
+open PrintedQuery RenderPrinted in
+/-- **Each statement alone.** Every statement of such a query, printed alone, parses — as a query and
+through `ParseStatement`'s loop — to itself: together with `parseQuery_printed_exprs_partial` "each
+identical to the result of parsing it alone". -/
+theorem parseQuery_printed_exprs_single_partial (q : QStmt) (hok : q.OK) (text : Str)
+    (params : List (Str × BoundValue)) (tbl : List (Char × Char)) (hfold : foldCR text = q.stmt.print) :
+    parseQueryText text params tbl = .ok [q.stmt] :=
+  parseQuery_printed_exprs_partial [q] (by intro q' h; simp at h; rw [h]; exact hok) text params tbl
+    (by rw [hfold]; rfl)
+
+section printedExamples
+open PrintedQuery RenderPrinted
+
+/-- `host = 'a'`, `host = 'b'`. -/
+def exCondA : Option Expr := some (.binary .EQ (.varRef "host".toList .Unknown) (.string ['a']))
+def exCondB : Option Expr := some (.binary .EQ (.varRef "host".toList .Unknown) (.string ['b']))
+
+/-- `SELECT value FROM cpu WHERE host = 'a' LIMIT 3`, `DROP SERIES FROM cpu WHERE host = 'b'`, `SHOW DATABASES`. -/
+def exQuery : List QStmt :=
+  [.expr (selectPS ⟨.varRef "value".toList .Unknown, []⟩ [] "cpu".toList [] exCondA 3 0 0 0),
+   .expr (dropSeriesPS ["cpu".toList] exCondB),
+   .plain (.zeroArg ([.SHOW, .DATABASES], .parseShowDatabasesStatement, .showDatabases) (by simp [C01.zeroArgFamily]))]
+
+/-- Non-vacuity, through the theorem: the printed query
+`SELECT value FROM cpu WHERE host = 'a' LIMIT 3;⏎DROP SERIES FROM cpu WHERE host = 'b';⏎SHOW DATABASES`
+parses to its three statements. -/
+example : printStatements (exQuery.map QStmt.stmt) =
+      "SELECT value FROM cpu WHERE host = 'a' LIMIT 3;\nDROP SERIES FROM cpu WHERE host = 'b';\nSHOW DATABASES".toList ∧
+    parseQueryText
+      "SELECT value FROM cpu WHERE host = 'a' LIMIT 3;\nDROP SERIES FROM cpu WHERE host = 'b';\nSHOW DATABASES".toList [] [] =
+      .ok (exQuery.map QStmt.stmt) := by
+  refine ⟨by decide +kernel, ?_⟩
+  refine parseQuery_printed_exprs_partial exQuery ?_ _ [] [] (by decide +kernel)
+  intro q hq
+  simp only [exQuery, List.mem_cons, List.not_mem_nil, or_false] at hq
+  rcases hq with rfl | rfl | rfl
+  · exact selectPS_ok _ _ _ _ _ _ _ _ _ (by decide +kernel)
+  · exact dropSeriesPS_ok _ _ (by decide +kernel)
+  · trivial
+
+/-- … and the middle statement alone. -/
+example : parseQueryText "DROP SERIES FROM cpu WHERE host = 'b'".toList [] [] =
+    .ok [.dropSeries (["cpu".toList].map nameSrc) exCondB] := by
+  have := parseQuery_printed_exprs_single_partial (.expr (dropSeriesPS ["cpu".toList] exCondB))
+    (dropSeriesPS_ok _ _ (by decide +kernel)) "DROP SERIES FROM cpu WHERE host = 'b'".toList [] [] (by decide +kernel)
+  exact this
+
+end printedExamples
 
 /-! ## Negative examples: where the side conditions bite (kernel-checked) -/
 
